@@ -20,7 +20,7 @@ from ..core import terms as T
 from ..core.loader import unparse, AnalysisError
 from ..rules import workers as W
 from ..rules.effects import PathAnalysis
-from .C05 import check_signs, check_dispatch
+from .C05 import check_tiles, check_cursor_use, check_signs, check_dispatch
 from .C19 import _loop_fresh, _enclosing_loop
 
 ID = 'C13'
@@ -63,6 +63,9 @@ def check(ctx):
     check_signs(ctx, ANCHOR_MODULES, advisory_rest=True)
     check_dispatch(ctx, DISPATCHERS)
     check_parallel_pieces(ctx)
+    check_cursor_use(ctx, ANCHOR_MODULES, floor=6)
+    check_index_spaces(ctx)
+    check_tiles(ctx, ANCHOR_MODULES, floor=8)
 
 
 def check_parallel_pieces(ctx):
@@ -189,3 +192,25 @@ def check_parallel_pieces(ctx):
                               f'in the dispatch order held by `{name}`')
             ctx.ob(rule, f'join:{name}:iteration', fi.loc(), ok_join,
                    detail)
+
+
+def check_index_spaces(ctx, rule='R-SPACE/positions'):
+    """index-space typing of the transposition and sparse helpers
+    (sa/rules/spaces.py): arrays sliced by the same positions were filtered
+    and permuted identically; run starts are positions of the array they
+    slice"""
+    from ..rules.spaces import check_spaces
+    db = ctx.db
+    n = 0
+    main = 0
+    for fi in db.iter_functions():
+        if fi.module.short in ANCHOR_MODULES:
+            k = check_spaces(ctx, db, fi, rule)
+            n += k
+            if fi.qual == 'utils.csc_to_csr:transpose_sparse_matrix_on_disk':
+                main = k
+    failed = any(o.rule == rule and not o.ok for o in ctx.obligations)
+    if main < 10 and not failed:
+        raise AnalysisError('index-space typing of '
+                            'transpose_sparse_matrix_on_disk covered only '
+                            f'{main} gathers / slices')
